@@ -20,6 +20,8 @@ sys.path.insert(0, os.path.dirname(os.path.abspath(__file__)))
 from gen import core  # noqa: E402
 
 CHECKS = {
+    "C06": "gen.c06",
+    "C07": "gen.c07",
     "C15": "gen.c15",
 }
 
